@@ -335,7 +335,7 @@ def m_slice_len(eng, st, fr, t, name, rname, args):
 
 def m_bytes_next2(eng, st, fr, t, name, rname, args):
     it = _iter_of(eng, st, args[0])
-    if it is None:
+    if it is None or not isinstance(it.fields.get(0), K):
         return NotImplemented
     data = _iter_data(st, it)
     pos = it.fields[0].v
@@ -963,6 +963,43 @@ def with_lists(models):
     return out
 
 
+# ---- mutable iteration over a fixed-size array: the items are references into the array itself -----------------------
+ARRAY_MUT_ITER = "array-mut-iter"
+
+
+def m_array_iter_mut(eng, st, fr, t, name, rname, args):
+    v = eng.resolve(st, args[0])
+    loc = None
+    n = 0
+    while isinstance(v, RefV) and n < 6:
+        loc = Loc(v.cell, v.path)
+        v = eng.resolve(st, load(loc))
+        n += 1
+    if loc is None or not (isinstance(v, AggV) and v.kind == "array" and all(isinstance(k, int) for k in v.fields)):
+        return NotImplemented
+    return AggV(ARRAY_MUT_ITER, {0: K(0), 1: RefV(loc.cell, loc.path, True), 2: K(len(v.fields))})
+
+
+def m_array_mut_next(eng, st, fr, t, name, rname, args):
+    v = eng.resolve(st, args[0])
+    n = 0
+    while isinstance(v, RefV) and n < 6:
+        v = eng.resolve(st, load(Loc(v.cell, v.path)))
+        n += 1
+    if not (isinstance(v, AggV) and v.kind == ARRAY_MUT_ITER):
+        return NotImplemented
+    pos, base, cnt = v.fields[0].v, v.fields[1], v.fields[2].v
+    if pos < cnt:
+        v.fields[0] = K(pos + 1)
+        return mk_option(RefV(base.cell, base.path + (pos,), True))
+    return mk_option(None)
+
+
+def m_array_mut_into_iter(eng, st, fr, t, name, rname, args):
+    v = eng.resolve(st, args[0])
+    return v if isinstance(v, AggV) and v.kind == ARRAY_MUT_ITER else NotImplemented
+
+
 # ---- integer helper methods on constants (saturating / wrapping / checked arithmetic, min / max) --------------------
 import re as _re
 
@@ -1023,6 +1060,7 @@ for _w in ("min", "max"):
 
 FOLD_MODELS = dict(BYTE_MODELS)
 FOLD_MODELS.update(INT_MODELS)
+_FOLD_ARRAY_MUT = True
 FOLD_MODELS.update({
     "core::slice::iter": m_slice_iter,
     "core::slice::len": m_slice_len,
@@ -1119,3 +1157,14 @@ def _install_itermodels():
 
 
 _install_itermodels()
+
+
+def _install_array_mut():
+    FOLD_MODELS["core::slice::iter_mut"] = _or(m_array_iter_mut, FOLD_MODELS.get("core::slice::iter_mut"))
+    for k in ("core::iter::Iterator::next", "<core::slice::IterMut<'a, T> as core::iter::Iterator>::next"):
+        FOLD_MODELS[k] = _or(m_array_mut_next, FOLD_MODELS.get(k))
+    k = "core::iter::IntoIterator::into_iter"
+    FOLD_MODELS[k] = _or(m_array_mut_into_iter, FOLD_MODELS.get(k))
+
+
+_install_array_mut()
